@@ -304,6 +304,42 @@ let run_push () =
   | RErr e -> Printf.sprintf "EXIT 1 ERR %s | %s%s" (rerr_name e) (show_fs fs') trace
   | RPanic -> "PANIC | " ^ show_fs fs' ^ trace
 
+(* wf <same tokens as push> : the first prefix length of the requested range after which the overlay holds a file with
+   a line that lacks its newline before the end (ModelChecks.overlay_wf) - "NWF k" - or "WF".  Classifies inputs of
+   the known finding no-newline-midfile; nothing is decided by it. *)
+let run_wf () =
+  let fuzz = int () in
+  let backup = (match word () with "A" -> Always | "O" -> OnFail | _ -> Never) in
+  let count = (let c = int () in if c < 0 then BAll else BLast (nat_of_int c)) in
+  let _dryw = int () in
+  let dm = int () in
+  let goal = (match word () with
+              | "A" -> GAll
+              | "C" -> GCount (nat_of_int (int ()))
+              | _ -> GUpTo (bytes_of_ints (hexbytes ()))) in
+  let nfiles = int () in
+  let files = times nfiles (fun () ->
+    let p = bytes_of_ints (hexbytes ()) in let d = bytes_of_ints (hexbytes ()) in let m = int () in
+    (normalize p, { f_data = d; f_mode = n_of_int m })) in
+  let ndirs = int () in
+  let dirs = times ndirs (fun () -> normalize (bytes_of_ints (hexbytes ()))) in
+  let np = int () in
+  let db = times np (fun () -> let n = bytes_of_ints (hexbytes ()) in let d = bytes_of_ints (hexbytes ()) in (n, d)) in
+  let cfg = { c_fuzz = nat_of_int fuzz; c_backup = backup; c_backup_count = count; c_dry_run = false;
+              c_default_mode = n_of_int dm; c_preload = false } in
+  let fs = { fs_files = files; fs_dirs = dirs; fs_log = []; fs_fault = None; fs_fired = false } in
+  match resolve_range fs goal with
+  | ROk ((series, first), last) ->
+      let rec drop n l = if n <= 0 then l else (match l with [] -> [] | _ :: r -> drop (n - 1) r) in
+      let rec take n l = if n <= 0 then [] else (match l with [] -> [] | x :: r -> x :: take (n - 1) r) in
+      let f = int_of_nat first and l = int_of_nat last in
+      let range = take (l - f) (drop f series) in
+      let rec go k = if k > List.length range then "WF"
+                     else if overlay_wf cfg db first (take k range) fs then go (k + 1)
+                     else Printf.sprintf "NWF %d" k in
+      go 1
+  | _ -> "WF"
+
 (* c01 <dir> <strip> <hexA|-> <hexB|-> <hexpatch> : is the patch text an exact diff from A to B (DiffCheck.c01_check) *)
 let run_c01 () =
   let dir = if int () = 0 then Fwd else Rev in
@@ -369,6 +405,7 @@ let run_case line =
   | "parse" -> run_parse ()
   | "rt" -> run_rt ()
   | "push" -> run_push ()
+  | "wf" -> run_wf ()
   | "c01" -> run_c01 ()
   | "applyb" -> run_applyb ()
   | "gen" -> run_gen ()
